@@ -58,7 +58,7 @@ Serializable == (\A s \in Sess : pc[s] = "done") =>
 AllDevs == {"C19.create_table_metadata_seen_half_done"}
 InitSt == [x |-> 0]
 Pairs == {"txpk|txpk", "none|readinfo", "none|none", "ins|ins", "ctmeta|readmeta", "merge|merge", "ctmeta|ctmeta", "conn|connother", "comment|comment",
-          "mergefail|merge", "nodbsel|nodbsel"}
+          "mergefail|merge", "nodbsel|nodbsel", "connlow|connup"}
 \*  errs: statements that raised; hang; rows: rows of the shared tables; vsum: the sum of their values; tabs: user tables made;
 \*  schemas: user schemas of D1; partial: metadata seen half-done; foreign: a session received a result that is not its own
 VSum(pair) == CASE pair = "ins|ins" -> 3 [] pair = "merge|merge" -> 33 [] pair = "txpk|txpk" -> 7 [] pair = "mergefail|merge" -> 22 [] pair = "nodbsel|nodbsel" -> 3 [] OTHER -> 0
@@ -73,6 +73,8 @@ Serial(pair) ==
     [] pair = "mergefail|merge" -> Obs(1, 1, 0, 1, FALSE)
     \* two sessions that connected WITHOUT a database: INSERT own value, SELECT own constant - each gets its own result
     [] pair = "nodbsel|nodbsel" -> Obs(0, 2, 0, 0, FALSE)
+    \* both auto-create the same new database, one naming it d9 and the other D9: one database, both succeed
+    [] pair = "connlow|connup" -> Obs(0, 0, 0, 0, FALSE)
 Outcome(pair) == [Serial(pair) EXCEPT !.vsum = VSum(pair)]
 Steps(st, op, D) ==
   {R(st, Outcome(op.pair))}
